@@ -395,7 +395,7 @@ func c17Func(p *Program, r *Report, fn *ssa.Function) {
 				continue
 			}
 			fkey := fmt.Sprintf("%s.%s", key, f.Name())
-			done := false
+			done, stale := false, false
 			why := "no store of a fresh value to out." + f.Name()
 			for _, b := range fn.Blocks {
 				for _, ins := range b.Instrs {
@@ -405,7 +405,8 @@ func c17Func(p *Program, r *Report, fn *ssa.Function) {
 							if freshDeep(x.Val, 0) {
 								done = true
 							} else {
-								why = fmt.Sprintf("out.%s is assigned a value that is not freshly allocated", f.Name())
+								stale = true
+								why = fmt.Sprintf("out.%s is assigned, on some path, a value that is not freshly allocated (%s): memory the destination or the original already held is reused, so the copy can stay an alias", f.Name(), describeVal(x.Val))
 							}
 						}
 					case *ssa.Call:
@@ -420,7 +421,7 @@ func c17Func(p *Program, r *Report, fn *ssa.Function) {
 					}
 				}
 			}
-			if done {
+			if done && !stale {
 				r.OKf("field", fkey, f.Pos(), "reference-carrying field is copied into fresh memory")
 			} else {
 				r.Fail("field", fkey, f.Pos(), "field %s (%s) carries references but keeps the shallow copy: %s", f.Name(), types.TypeString(f.Type(), relQual), why)
